@@ -100,6 +100,9 @@ func (vc *FnVC) obAssert(kind, key, text, cond string, pos token.Pos) {
 	if kind == "frame" && vc.fc != nil && vc.fc.NoFrame {
 		return
 	}
+	if kind == "frame" && vc.fc != nil && vc.fc.OwnWrites && (strings.HasPrefix(key, "frame@callee-modifies") || strings.Contains(key, "(passed to ")) {
+		return
+	}
 	if vc.sweep {
 		// safety sweep: no frame, callee preconditions taken for granted
 		if kind == "frame" {
